@@ -92,7 +92,51 @@ def analyse_ctor(syn, efile, res, rule):
                         else:
                             nm.fields[name] = ("other", txt[:80])
                 nm.lets = lets
+    mir_refine_ctor(syn, nm)
     return nm
+
+
+def mir_refine_ctor(syn, nm):
+    """fields the syntax could not classify are classified on MIR: a field filled with `F("Base", <set>)` where F is the
+    fresh-name function found by role ((&str, &mut used-set | &mut self holding it) -> String) is a fresh name, however
+    the call is spelled (free function, method of a small struct, local closure)"""
+    import os
+    from ..mir import Mir, Exprs, canon, short_path, _split_args, inline_helpers
+    from ..roles import roles_of
+    mirp = os.path.join(os.path.dirname(os.path.abspath(getattr(syn, "path", ""))), "mir.json")
+    if not os.path.exists(mirp):
+        return
+    mir = Mir(mirp)
+    F = roles_of(mir).fresh_name_fn
+    if F is None:
+        return
+    Fs = short_path(F.path)
+    for fn in mir.fns.values():
+        if fn.derived:
+            continue
+        ex = None
+        for b in fn.blocks:
+            if b["cleanup"]:
+                continue
+            for s_ in b["stmts"]:
+                if not (s_["k"] == "assign" and s_["rv"]["k"] == "agg" and s_["rv"].get("adt", "").endswith("::SrcBuilder")):
+                    continue
+                ex = ex or Exprs(fn)
+                for name, op in zip(s_["rv"]["fields"], s_["rv"]["ops"]):
+                    if name in nm.fields and nm.fields[name][0] != "other":
+                        continue
+                    v = canon(ex.operand(op))
+                    if not v.startswith(Fs + "("):
+                        continue
+                    args, _e = _split_args(v, len(Fs))
+                    lits = [a for a in (args or []) if re.match(r'^const\("(.*)"\)$', a)]
+                    others = [a for a in (args or []) if a not in lits]
+                    if len(lits) == 1 and len(others) == 1:
+                        nm.fields[name] = ("fresh", re.match(r'^const\("(.*)"\)$', lits[0]).group(1), F.name, others[0])
+                        nm.fresh_fn = F.name
+                        nm.fresh_key = F.key
+                        G_ = roles_of(mir).file_defined_identifiers
+                        nm.avoid_expr = inline_helpers(mir, others[0], skip=((short_path(G_.path),) if G_ is not None else ()))
 
 
 def check_fresh_machinery(ctx, nm, res, rule):
@@ -108,6 +152,14 @@ def check_fresh_machinery(ctx, nm, res, rule):
                 m = re.match(r"^(?:&mut)?(\w+)\.(\w+)\(\)$", txt)
                 if m and any(v[0] == "fresh" and v[3] == st["pat"]["name"] for v in nm.fields.values()):
                     used = (st["pat"]["name"], m.group(2))
+    if used is None and getattr(nm, "avoid_expr", None):
+        # MIR classification (mir_refine_ctor): the set handed over is the result of the file's defined-identifiers
+        # function, directly or stored unchanged in the small struct whose method the fresh-name function is
+        from ..roles import roles_of
+        from ..mir import short_path
+        G = roles_of(mir).file_defined_identifiers
+        if G is not None and re.match(r"^(?:[\w:]+\{)?%s\(param\d+\)\}?$" % re.escape(short_path(G.path)), nm.avoid_expr):
+            used = ("<mir>", G.name)
     if used is None:
         res.unanalysable(rule, "avoid-set", "", "cannot find the set of used identifiers handed to the fresh-name function")
         return
@@ -141,6 +193,8 @@ def check_fresh_machinery(ctx, nm, res, rule):
         res.violate(rule, "avoid-set|narrowing", g.where, "narrowing adaptor %s in the construction of the avoid set" % narrowing)
     # the fresh-name function: every returned name was inserted
     ff = [f for f in mir.fns.values() if f.name == (nm.fresh_fn or "").rsplit("::", 1)[-1] and f.kind == "Fn"]
+    if getattr(nm, "fresh_key", None) in mir.fns:
+        ff = [mir.fns[nm.fresh_key]]
     if len(ff) != 1:
         res.unanalysable(rule, "fresh-fn", "", "fresh-name function not found in MIR")
         return
@@ -184,8 +238,8 @@ def check_fresh_machinery(ctx, nm, res, rule):
                 continue
             t_ = blk["term"]
             ce = canon(ex.operand(t_["discr"]))
-            m_ = re.match(r"^(Not\()?HashSet::contains\(param\d+, (.*?)\)\)?$", ce)
-            m_i = re.match(r"^(Not\()?HashSet::insert\(param\d+, (.*?)\)\)?$", ce)
+            m_ = re.match(r"^(Not\()?HashSet::contains\(param\d+(?:\.\w+)*, (.*?)\)\)?$", ce)
+            m_i = re.match(r"^(Not\()?HashSet::insert\(param\d+(?:\.\w+)*, (.*?)\)\)?$", ce)
             if not m_ and not m_i:
                 continue
             tested = (m_ or m_i).group(2)
@@ -413,6 +467,7 @@ def run_rules(ctx, res):
     res.extra["internal_enums"] = {k: {"variants": v["variants"], "derive": v["derive"], "payload": v["payload"]} for k, v in internal_enums.items()}
 
     PATH_TAIL_FNS.clear()
+    PATH_TAIL_NODES.clear()
     for (t, toks) in all_tok:
         for i, tok in enumerate(toks):
             if tok.k == "ph" and i >= 2 and toks[i - 1].s == "::" and toks[i - 2].k in ("ph", "mixed"):
@@ -421,6 +476,7 @@ def run_rules(ctx, res):
                     alts = fn_alternatives(syn, efile, t, tok, consts)
                     if alts is not None and all(a in internal_enums[hk]["variants"] for a in alts):
                         PATH_TAIL_FNS.add(alt_fn_name(t, tok))
+                        mark_inline_tail(t, tok)
     n_lit = n_path = n_def = n_bind = 0
     gen_fn_defs, gen_fn_calls = [], []
     for (t, toks) in all_tok:
@@ -547,6 +603,7 @@ def run_rules(ctx, res):
                             why = "spliced from a helper whose alternatives start with %s%s" % (alts, "" if ok else "; not declared: %s" % missing)
                             if ok:
                                 PATH_TAIL_FNS.add(alt_fn_name(t, tok))
+                                mark_inline_tail(t, tok)
                         else:
                             lists = [v for v in en["variants"] if v.startswith("{derived:")]
                             parts = tok.parts if tok.k == "mixed" else [("ph", tok.ph)]
@@ -574,7 +631,7 @@ def run_rules(ctx, res):
                 n_lit += 1
                 fl = first_letter(s2)
                 key = "lit|%s" % s2
-                if i == 0 and t.fn in PATH_TAIL_FNS:
+                if i == 0 and (t.fn in PATH_TAIL_FNS or id(t.node) in PATH_TAIL_NODES):
                     continue  # spliced right after `Enum::` — checked as a path segment by R-C05-path
                 if fl is not None and fl.islower():
                     continue
@@ -752,15 +809,27 @@ def alt_fn_name(t, tok):
     return None
 
 
+def alt_inline_expr(t, tok):
+    """the placeholder is bound to a `match` written in place (the helper inlined): that expression"""
+    b = tpl.binding(t, tok.ph)
+    if b is not None and b[0] == "let" and b[1] is not None and b[1].get("k") == "Match":
+        return b[1]
+    return None
+
+
+PATH_TAIL_NODES = set()
+
+
 def fn_alternatives(syn, efile, t, tok, consts):
     """leading identifiers of every string a helper `self.f(..)` can return (format templates and CONST.to_string())"""
     fname = alt_fn_name(t, tok)
-    if fname is None:
+    inline = alt_inline_expr(t, tok) if fname is None else None
+    if fname is None and inline is None:
         return None
     out = []
-    for (p, impl, fn) in syn.all_fns(path=efile):
-        if fn["name"] != fname:
-            continue
+    bodies = [fn["body"] for (p, impl, fn) in syn.all_fns(path=efile) if fn["name"] == fname] if fname is not None else [inline]
+    for body_ in bodies:
+        fn = {"body": body_}
         for m in nodes(fn["body"], "Macro"):
             if m["name"] == "format" and m["args"] and m["args"][0]["k"] == "Lit":
                 segs = tpl.parse_format(m["args"][0]["lit"]["v"]) or []
@@ -781,6 +850,15 @@ def fn_alternatives(syn, efile, t, tok, consts):
             if m["method"] in ("to_string", "to_owned") and ident_of(m["recv"]) in consts:
                 out.append(consts[ident_of(m["recv"])])
     return out or None
+
+
+def mark_inline_tail(t, tok):
+    e = alt_inline_expr(t, tok)
+    if e is not None:
+        for m in nodes(e, "Macro"):
+            PATH_TAIL_NODES.add(id(m))
+        for l in nodes(e, "Lit"):
+            PATH_TAIL_NODES.add(id(l))
 
 
 def strip_ph(s_):
